@@ -27,7 +27,7 @@ import traceback
 import sfc_models.equation_solver
 from sfc_models.equation import EquationBlock, Equation
 from sfc_models.equation_parser import EquationParser
-from sfc_models.utils import Logger, LogicError
+from sfc_models.utils import Logger, LogicError, replace_token_from_lookup
 
 
 class EconomicObject(object):
@@ -370,6 +370,13 @@ class Model(EconomicObject):
             lookup[alias] = sector.GetVariableName(varname)
         for sector in self.GetSectors():
             sector._ReplaceAliases(lookup)
+        # Model-level (global) equations may also embed aliases handed out by GetVariableName().
+        fixed = []
+        for var, eqn, desc in self.GlobalVariables:
+            if any(alias in eqn for alias in lookup):
+                eqn = replace_token_from_lookup(eqn, lookup)
+            fixed.append((var, eqn, desc))
+        self.GlobalVariables = fixed
 
     def LogInfo(self, generate_full_codes=True, ex=None):  # pragma: no cover
         """
